@@ -10,7 +10,10 @@ Definition ex_ops : list op :=
    OAddProxy 5 (Some 12) None; OAddProxy 6 (Some 12) None;
    OAddCluster 1 4 1 [(1, 3)]; OAutoAddNodes 1 4 [(5, 2)]; OMigrateSlots 1].
 Definition ex_store : store := run (init_store false) ex_ops.
-Definition ex_one : store := run ex_free [OAddCluster 1 4 1 [(1, 3)]].
+Definition ex_one_ops : list op :=
+  [OAddProxy 1 (Some 10) None; OAddProxy 2 (Some 10) None; OAddProxy 3 (Some 11) None; OAddProxy 4 (Some 11) None;
+   OAddProxy 5 (Some 12) None; OAddProxy 6 (Some 12) None; OAddCluster 1 4 1 [(1, 3)]].
+Definition ex_one : store := run (init_store false) ex_one_ops.
 Definition ex_three : store :=
   run (init_store false) [OAddProxy 1 (Some 10) None; OAddProxy 2 (Some 11) None; OAddProxy 3 (Some 12) None].
 Definition ex_closed_ops : list op :=
